@@ -80,7 +80,10 @@ def run(ctx: Ctx) -> None:
                 "on its own, in order, and the index each element reports vs its own first byte; 30C9/2309 arrays bit-exact against the model's decode_array; "
                 "(b) payloads generated from the per-verb/code regex of EVERY known code (lowest/highest/random modes), three address shapes: the decoded payload is "
                 "JSON-serialisable, identical when decoded again, after other packets, and in the reverse order; any zone_idx/domain_id/ufh_idx it reports is the one in "
-                "the frame; ratios within 0..1 and temperatures within the wire range; non-trivial = the packet decoded; distinct = by frame")
+                "the frame; ratios within 0..1 and temperatures within the wire range; (c) byte sweep: one real-world packet (the repository's parser logs, plus decodable generated ones) "
+                "per (code, verb, length) that carries a ratio or a temperature, every byte set to boundary values (00 01 32 63 64 65 7E 7F 80 C7 C8 C9 EE EF F0 FE FF + random; all 256 "
+                "in the thorough tier), same range checks; (a') hex_to_percent (both resolutions) and hex_to_temp against the model over their whole domains; "
+                "non-trivial = the packet decoded; distinct = by frame")
     ctx.assumptions += ["per-element decoding inside the ~109 parsers is not modelled beyond the two temperature arrays; the element-wise theorem is for any element decoder, and "
                         "its tie to the code is the translator's shape check of the array branch of each parser",
                         "which keys hold ratios / temperatures is decided by name (…_demand, modulation_level, battery_level, …_humidity, …_fan_speed, percent… / temperature(s), …_temp, setpoint…)"]
